@@ -429,9 +429,13 @@ fn parse_command(
 			}
 		}
 
+		// (no output is written when only the help or
+		// version text is asked for)
 		if !group.printout &&
 			group.output_filename.is_none() &&
-			command.input_filenames.len() >= 1
+			command.input_filenames.len() >= 1 &&
+			!command.show_help &&
+			!command.show_version
 		{
 			group.output_filename = Some(derive_output_filename(
 				report,
